@@ -84,9 +84,10 @@ def judge (fmt : String) (s : St) : String :=
   | none, some o, some r =>
     let o' := sanitizeDump o
     if fmt = "v2" then
-      if decide (TreeSetsEquiv o' r) then "EQ ok"
-      else if decide (TreeSetsEquiv (normMem o') r) then "EQ memsets"
-      else "EQ FAIL v2-tree-or-sets " ++ ",".intercalate (dumpDiffs o' r)
+      let o2 := v2DieRule o'
+      if decide (TreeSetsEquiv o2 r) then "EQ ok"
+      else if decide (TreeSetsEquiv (normMem o2) r) then "EQ memsets"
+      else "EQ FAIL v2-tree-or-sets " ++ ",".intercalate (dumpDiffs o2 r)
     else
       let xeq := xlinesEqual s.xo.reverse s.xr.reverse
       if decide (TopoEquiv o' r) && xeq then "EQ ok"
